@@ -220,6 +220,14 @@ func (fx *FuncCtx) callStatic(st *State, x *ssa.Call, callee *ssa.Function) (for
 	f := st.top()
 	args := fx.args(st, &x.Call)
 	inPkg := callee.Pkg != nil && callee.Pkg == fx.eng.spkg
+	if inPkg && callee.Name() == "unsafeBytesToString" {
+		// trusted model of unsafe code: the string aliases the bytes of b
+		fx.warn("trusted: unsafeBytesToString(b) is modelled as a string over the same bytes as b (unsafe code, not verified)")
+		if b, ok := args[0].(SliceVal); ok {
+			f.vals[x] = StringVal{Base: b.Base, Off: b.Off, Len: b.Len}
+			return nil, false
+		}
+	}
 	if !inPkg {
 		r, ok := fx.extern(st, x, callee, args)
 		if !ok {
@@ -387,6 +395,9 @@ func (fx *FuncCtx) extern(st *State, x *ssa.Call, callee *ssa.Function, args []V
 	case "errors.New", "fmt.Errorf":
 		return nonNilErr(), true
 	case "errors.Is":
+		if iv, ok := args[0].(IfaceVal); ok && iv.Aux != nil {
+			return And(Not(iv.Nil), *iv.Aux), true
+		}
 		return fx.FreshSym("errorsIs", SBool), true
 	case "fmt.Println", "fmt.Printf":
 		return fx.Fresh(x.Type(), "fmt"), true
@@ -466,7 +477,20 @@ func (fx *FuncCtx) extern(st *State, x *ssa.Call, callee *ssa.Function, args []V
 	case "strconv.Itoa", "strconv.FormatInt", "strconv.FormatUint":
 		return fx.Fresh(types.Typ[types.String], "itoa"), true
 	case "strconv.ParseInt", "strconv.ParseUint", "strconv.ParseFloat":
-		return fx.Fresh(x.Type(), "parse"), true
+		// uninterpreted functions of the string contents (same bytes => same answers); see specParse* builtins
+		sv, ok := args[0].(StringVal)
+		if !ok {
+			return fx.Fresh(x.Type(), "parse"), true
+		}
+		kind := strings.TrimPrefix(callee.Name(), "Parse")
+		okT, valT, rngT := fx.strconvSyms(st, kind, sv.Base, sv.Off, sv.Len)
+		var v Value = valT
+		if kind == "Float" {
+			v = FPFromBits(valT)
+		}
+		return TupleVal{v, IfaceVal{Nil: okT, T: nil, Aux: &rngT}}, true
+	case "reflect.ValueOf":
+		return fx.Fresh(x.Type(), "reflect"), true
 	case "sync.(*WaitGroup).Add", "sync.(*WaitGroup).Done", "sync.(*WaitGroup).Wait", "sync.(*Once).Do",
 		"sync.(*Pool).Put", "sync.(*Mutex).Lock", "sync.(*Mutex).Unlock":
 		return nil, true
@@ -543,4 +567,52 @@ func (fx *FuncCtx) mapHas(st *State, m MapVal, key Value) Term {
 	t := fx.FreshSym("maphas", SBool)
 	fx.mapHasSyms[id] = t
 	return t
+}
+
+// strconvSyms returns (ok, value bits, isRangeError) of strconv.Parse{Int,Uint,Float} applied to the given
+// bytes, as symbols that are a function of (kind, array, offset, length).
+func (fx *FuncCtx) strconvSyms(st *State, kind string, base PtrVal, off, ln Term) (Term, Term, Term) {
+	arr := st.baseArr(base).Arr
+	key := "strconv|" + kind + "|" + arr.S + "|" + off.S + "|" + ln.S
+	if fx.uninterp == nil {
+		fx.uninterp = map[string][]Term{}
+	}
+	if ts, ok := fx.uninterp[key]; ok {
+		return ts[0], ts[1], ts[2]
+	}
+	// genuine uninterpreted functions of (array, offset, length): congruence is the solver's business
+	args := arr.S + " " + off.S + " " + ln.S
+	okT := Term{S: "(strconv_" + kind + "_ok " + args + ")", So: SBool}
+	valT := Term{S: "(strconv_" + kind + "_val " + args + ")", So: SBV64}
+	rngT := Term{S: "(strconv_" + kind + "_range " + args + ")", So: SBool}
+	if boundRe.MatchString(args) {
+		// application over a bound variable (inside a quantified contract instance): no global axiom possible
+		fx.uninterp[key] = []Term{okT, valT, rngT}
+		return okT, valT, rngT
+	}
+	// a range error is an error; a successful ParseFloat result is finite
+	fx.axiomAlways(Implies(rngT, Not(okT)))
+	if kind == "Int" || kind == "Uint" {
+		// assumed contract of strconv.ParseInt/ParseUint(s, 10, 64): success implies decimal syntax
+		// (an optional sign for ParseInt only, then one or more digits)
+		fx.symID++
+		j := Sym(fmt.Sprintf("j!b%d", fx.symID), SBV64)
+		digit := func(c Term) Term { return And(BVUle(BVConst(8, '0'), c), BVUle(c, BVConst(8, '9'))) }
+		first := Select(arr, off)
+		lo := i64(0)
+		syn := BVSle(i64(1), ln)
+		if kind == "Int" {
+			lo = i64(1)
+			sign := Or(Eq(first, BVConst(8, '+')), Eq(first, BVConst(8, '-')))
+			syn = And(syn, Or(digit(first), And(sign, BVSle(i64(2), ln))))
+		}
+		all := Forall([]Term{j}, Implies(And(BVSle(lo, j), BVSlt(j, ln)), digit(Select(arr, BVAdd(off, j)))))
+		fx.axiomAlways(Implies(Or(okT, rngT), And(syn, all)))
+	}
+	if kind == "Float" {
+		fx.axiomAlways(Implies(okT, Not(Term{S: "(fp.isInfinite " + FPFromBits(valT).S + ")", So: SBool})))
+		fx.axiomAlways(Implies(okT, Not(Term{S: "(fp.isNaN " + FPFromBits(valT).S + ")", So: SBool})))
+	}
+	fx.uninterp[key] = []Term{okT, valT, rngT}
+	return okT, valT, rngT
 }
